@@ -50,6 +50,24 @@ def spec_function(target, use=(), timeout_ms=None):
                                   describe=T.describe_args(names), timeout_ms=timeout_ms)
 
 
+def spec_fold(timeout_ms=None):
+    """C04 composition: from_specifierset = fold of the leaf translation with `&` (law contract), for any number of clauses"""
+    from pyvc import verify
+    from contracts import spec_fold as F
+    ix, th, contracts, CR, CU, L, T = _spec_env()
+    f, cs, specs = F.setup(th)
+    return verify.verify_function(ix, th, f, use_contracts=[F.LEAF], contracts=cs, loop_specs=specs, timeout_ms=timeout_ms)
+
+
+def spec_parse(timeout_ms=None):
+    """C17 error translation / C04 alternatives: parse_version_specifier over abstract texts"""
+    from pyvc import verify
+    from contracts import spec_fold as F
+    ix, th, contracts, CR, CU, L, T = _spec_env()
+    p, cs, specs = F.setup_parse(th)
+    return verify.verify_function(ix, th, p, use_contracts=[F.Q, F.PQ], contracts=cs, loop_specs=specs, timeout_ms=timeout_ms)
+
+
 def spec_law(op, use=(), timeout_ms=None):
     from pyvc import verify
     ix, th, contracts, CR, CU, L, T = _spec_env()
